@@ -90,8 +90,14 @@ def program(x):
         body = {"unit": "    Bad,", "tuple2": "    Bad(String, String),", "named2": "    Bad { a: String, b: String },", "tuple0": "    Bad(),"}[shape]
         bad = ["    #[strum(%s)]" % kw, body]
     elif rule == "unit_placeholder":
-        lit = {"index": "a {0}", "name": "a {name}", "spec": "{0:>4}"}[shape]
-        bad = ['    #[strum(to_string = "%s")]' % lit, "    Bad,"]
+        if shape == "via_serialize":       # the placeholder arrives through the longest serialize, there is no to_string
+            bad = ['    #[strum(serialize = "l", serialize = "level-{0}")]', "    Bad,"]
+        elif shape == "via_prefix":        # ... or through the enum-level prefix
+            enum_attrs = ['#[strum(prefix = "{0}-")]']
+            bad = ["    Bad,"]
+        else:
+            lit = {"index": "a {0}", "name": "a {name}", "spec": "{0:>4}"}[shape]
+            bad = ['    #[strum(to_string = "%s")]' % lit, "    Bad,"]
     elif rule == "empty_placeholder":
         bad = ['    #[strum(to_string = "a {}")]', "    Bad(u8),"]
     elif rule == "unknown_style":
